@@ -16,4 +16,16 @@ example : (has storage_BadgerStore_WriteRoundWork_calls "Update*1" &&
     has storage_BadgerStore_WriteRoundWork_calls "panic*6") = true := by decide
 example : has storage_BadgerStore_WriteRoundWork_calls "NewTransaction*1" = false := by decide
 
+/-- number of call sites of `name` in a `calls` fact (entries are `name*count`) -/
+def sites (l : List String) (name : String) : Nat :=
+  ((List.range 40).filter (fun n => l.contains (name ++ "*" ++ toString n))).foldl (· + ·) 0
+
+/-- the counters are read through the update transaction: as many `graphReadUint64` sites as
+    `graphWriteUint64` sites, and the closure calls no method that opens its own transaction -/
+example : (sites storage_BadgerStore_WriteRoundWork_calls "graphReadUint64" ==
+    sites storage_BadgerStore_WriteRoundWork_calls "graphWriteUint64") = true := by decide
+example : (["ListNodeWorks", "ListWorkOffsets", "ReadWorkOffset", "ReadSnapshotWorksForNodeRound",
+    "View", "NewTransaction"].all
+    (fun m => sites storage_BadgerStore_WriteRoundWork_calls m == 0)) = true := by decide
+
 end Mixin.Facts.ExpectedC26
